@@ -1,5 +1,5 @@
 """C05 — formatter contract (structural clauses; the round trip parse(format(x)) == x is not decided)."""
-from ..rules import text, data, fields, eqord, parser, features, vis, summary
+from ..rules import text, data, fields, eqord, parser, features, vis, summary, beliefs
 
 EXPL = ("Decides: store_into_bytes refuses exactly when buffer.len() < len_in_str() and no store to the buffer lies on that path; it "
         "returns Ok(len_in_str()); to_string allocates exactly len_in_str() bytes and fills them with that one formatter, Display "
@@ -44,6 +44,8 @@ def run(ctx):
         ctx.guard("C05", "parse-cap", lambda: parser.capacity_after_collapse(ctx, prog))
         ctx.guard("C05", "summaries", lambda: summary.check(ctx, prog, '::to_string|alloc::string::String>::from|::len_in_str|core::fmt::Display', floor=1))
         ctx.guard("C05", "path summaries", lambda: summary.check_paths(ctx, prog, '::to_string|alloc::string::String>::from|::len_in_str|core::fmt::Display', floor=0))
+        if c in ("dbg", "unsafe_dbg", "strict_dbg"):
+            ctx.guard("C05", "beliefs", lambda: beliefs.census(ctx, prog, beliefs.SCOPES["C05"][0], floor=beliefs.SCOPES["C05"][1]))
         ctx.guard("C05", "traits", lambda: vis.trait_census(ctx, prog, scope='core::fmt::Display for internals::hash|core::str::FromStr|for alloc::string::String'))
         ctx.guard("C05", "sym", lambda: eqord.len_index_symmetry(ctx, prog, scope=r"(store_into_bytes|insert_block_hash_into_bytes|len_in_str|::to_string|core::fmt::Display)", floor=2))
     return ctx.finish(EXPL, ["core::str::from_utf8 accepts all-ASCII input", "alloc::vec::from_elem(0, n) yields n bytes"])
